@@ -209,6 +209,8 @@ def case_strategy(draw, tier="quick"):
                 choices += ["set_fill"]
                 if len(mo.vars) > mo.first_new:
                     choices += ["var_fill", "var_fill", "att_fv"]
+                    if any(v["att"] is not None for v in mo.vars) and len(mo.vars) - mo.first_new >= 1:
+                        choices += ["copy_fv"]
                     if any(v["att"] is not None for v in mo.vars[mo.first_new:]) and G.chance(draw, 30):
                         choices += ["del_fv"]
                 if G.chance(draw, 10):
@@ -243,6 +245,15 @@ def case_strategy(draw, tier="quick"):
                 fvs = draw(st.integers(0, 10 ** 6))
                 mo.att_fv(v, user_fill(mo.vars[v]["xt"], fvs))
                 sc["defs"].append({"a": "att_fv", "v": v, "fv": fvs})
+            elif a == "copy_fv":
+                # _FillValue copied from another variable: legal only between variables of the same type
+                srcs = [i for i, v in enumerate(mo.vars) if v["att"] is not None]
+                src = draw(st.sampled_from(srcs))
+                dst = draw(st.integers(mo.first_new, len(mo.vars) - 1))
+                if src != dst:
+                    if mo.vars[src]["xt"] == mo.vars[dst]["xt"]:
+                        mo.att_fv(dst, mo.vars[src]["att"])
+                    sc["defs"].append({"a": "copy_fv", "src": src, "dst": dst})
             elif a == "late_fv":
                 sc["defs"].append({"a": "late_fv", "v": draw(st.integers(0, mo.first_new - 1)), "fv": draw(st.integers(0, 10 ** 6))})
             elif a == "del_fv":
@@ -393,6 +404,16 @@ def build(case):
                 mo.att_fv(v, val)
                 p.op("put_att", step=True, f="f0", v=v, name=hx("_FillValue"), xt=xt, mt=M.XT_NATIVE_MT[xt], n=1, hex=native_bytes(val, xt))
                 labels.add("att_FillValue")
+            elif kind == "copy_fv":
+                src, dst = a["src"], a["dst"]
+                if src >= len(mo.vars) or dst >= len(mo.vars) or mo.vars[src]["att"] is None or not mo.is_new(dst) or src == dst:
+                    continue
+                same = mo.vars[src]["xt"] == mo.vars[dst]["xt"]
+                p.op("copy_att", step=True, f="f0", v=src, name=hx("_FillValue"), f2="f0", v2=dst, expect=0 if same else M.E["EBADTYPE"],
+                     what="copy_att _FillValue between variables of %s type" % ("the same" if same else "different"))
+                if same:
+                    mo.att_fv(dst, mo.vars[src]["att"])
+                labels.add("copy_att_FillValue_same_type" if same else "copy_att_FillValue_other_type_EBADTYPE")
             elif kind == "late_fv":
                 v = a["v"]
                 if si == 0 or v >= mo.first_new:
